@@ -9,8 +9,12 @@ here=$(cd "$(dirname "$0")/.." && pwd)
 cd $here
 ./setup.sh > /dev/null 2>&1
 echo "unchanged: $(for p in $checks; do ./check $p 2>&1 | grep -q '^VIOLATION' && printf '%s ' $p; done)"
+i=0
 for d in seeded/*/; do
   name=$(basename $d)
+  i=$((i + 1))
+  # MATRIX_PART=k/n: only every n-th change, starting with the k-th (several runs side by side)
+  if [ -n "$MATRIX_PART" ] && [ $(( i % ${MATRIX_PART#*/} )) -ne $(( ${MATRIX_PART%/*} % ${MATRIX_PART#*/} )) ]; then continue; fi
   if ! (cd $repo && git apply $here/$d/patch.diff); then echo "$name: patch does not apply"; continue; fi
   row=""
   for p in $checks; do
